@@ -4,9 +4,86 @@
 //! `read` does not). Everything else goes straight to the system call.
 
 use std::cell::RefCell;
+use std::sync::atomic::{AtomicUsize, Ordering};
+
+/// Called after every successful `read`/`pread` of a seekable file: (fd, file offset of the first byte,
+/// buffer, bytes read). The segment explorer uses it to turn file-descriptor reads of the segment into
+/// loads of the simulated shared memory (a read(2) of a MAP_SHARED file races with the daemon's stores
+/// exactly like a load through the mapping does).
+pub type FileReadHook = fn(fd: i32, off: i64, buf: *mut u8, n: usize);
+static HOOK: AtomicUsize = AtomicUsize::new(0);
+pub fn set_file_read_hook(f: FileReadHook) {
+    HOOK.store(f as usize, Ordering::SeqCst);
+}
+fn after_read(fd: i32, off: i64, buf: *mut u8, n: isize) {
+    let h = HOOK.load(Ordering::Relaxed);
+    if h != 0 && off >= 0 && n > 0 {
+        // SAFETY: only ever set from a FileReadHook
+        let f: FileReadHook = unsafe { std::mem::transmute(h) };
+        f(fd, off, buf, n as usize);
+    }
+}
 
 thread_local! {
     static FAIL: RefCell<Option<(String, i32)>> = const { RefCell::new(None) };
+}
+
+thread_local! {
+    /// transient failure of one system call made through libc: (call: 0 open, 1 read, 2 mmap; index of the
+    /// call that fails, counted from arming; errno; calls seen so far)
+    static ONCE: std::cell::Cell<Option<(u8, u32, i32, u32)>> = const { std::cell::Cell::new(None) };
+}
+pub const CALL_OPEN: u8 = 0;
+pub const CALL_READ: u8 = 1;
+pub const CALL_MMAP: u8 = 2;
+/// The `nth` (0-based) call of this kind made by the calling thread from now on fails once with `errno`.
+pub fn fail_call_once(call: u8, nth: u32, errno: i32) {
+    ONCE.with(|o| o.set(Some((call, nth, errno, 0))));
+}
+pub fn clear_once() -> bool {
+    ONCE.with(|o| {
+        let fired = matches!(o.get(), Some((_, n, _, seen)) if seen > n);
+        o.set(None);
+        fired
+    })
+}
+fn once_hits(call: u8) -> Option<i32> {
+    ONCE.try_with(|o| match o.get() {
+        Some((c, nth, e, seen)) if c == call => {
+            o.set(Some((c, nth, e, seen + 1)));
+            if seen == nth {
+                Some(e)
+            } else {
+                None
+            }
+        }
+        _ => None,
+    })
+    .unwrap_or(None)
+}
+
+/// Interposed over libc's (pass-through unless a transient failure is armed for this thread).
+///
+/// # Safety
+/// Same contract as open(2).
+#[no_mangle]
+pub unsafe extern "C" fn open(path: *const libc::c_char, flags: libc::c_int, mode: libc::c_uint) -> libc::c_int {
+    if let Some(e) = once_hits(CALL_OPEN) {
+        errno::set_errno(errno::Errno(e));
+        return -1;
+    }
+    libc::syscall(libc::SYS_openat, libc::AT_FDCWD, path, flags, mode) as libc::c_int
+}
+
+/// # Safety
+/// Same contract as mmap(2).
+#[no_mangle]
+pub unsafe extern "C" fn mmap(addr: *mut libc::c_void, len: libc::size_t, prot: libc::c_int, flags: libc::c_int, fd: libc::c_int, off: libc::off_t) -> *mut libc::c_void {
+    if let Some(e) = once_hits(CALL_MMAP) {
+        errno::set_errno(errno::Errno(e));
+        return libc::MAP_FAILED;
+    }
+    libc::syscall(libc::SYS_mmap, addr, len, prot, flags, fd, off) as *mut libc::c_void
 }
 
 pub fn fail_reads_of(path_suffix: &str, errno: i32) {
@@ -22,6 +99,10 @@ pub fn clear() {
 /// Same contract as read(2).
 #[no_mangle]
 pub unsafe extern "C" fn read(fd: libc::c_int, buf: *mut libc::c_void, count: libc::size_t) -> libc::ssize_t {
+    if let Some(e) = once_hits(CALL_READ) {
+        errno::set_errno(errno::Errno(e));
+        return -1;
+    }
     let armed = FAIL.try_with(|f| f.try_borrow().map(|g| g.clone()).unwrap_or(None)).unwrap_or(None);
     if let Some((suffix, errno)) = armed {
         let mut link = [0u8; 512];
@@ -35,5 +116,26 @@ pub unsafe extern "C" fn read(fd: libc::c_int, buf: *mut libc::c_void, count: li
             }
         }
     }
-    libc::syscall(libc::SYS_read, fd, buf, count) as libc::ssize_t
+    let off = if HOOK.load(Ordering::Relaxed) != 0 { libc::syscall(libc::SYS_lseek, fd, 0, libc::SEEK_CUR) } else { -1 };
+    let n = libc::syscall(libc::SYS_read, fd, buf, count) as libc::ssize_t;
+    after_read(fd, off, buf as *mut u8, n);
+    n
+}
+
+/// Interposed over libc's (positional reads of the segment are shared-memory loads as well).
+///
+/// # Safety
+/// Same contract as pread(2).
+#[no_mangle]
+pub unsafe extern "C" fn pread64(fd: libc::c_int, buf: *mut libc::c_void, count: libc::size_t, offset: libc::off64_t) -> libc::ssize_t {
+    let n = libc::syscall(libc::SYS_pread64, fd, buf, count, offset) as libc::ssize_t;
+    after_read(fd, offset, buf as *mut u8, n);
+    n
+}
+
+/// # Safety
+/// Same contract as pread(2).
+#[no_mangle]
+pub unsafe extern "C" fn pread(fd: libc::c_int, buf: *mut libc::c_void, count: libc::size_t, offset: libc::off_t) -> libc::ssize_t {
+    pread64(fd, buf, count, offset)
 }
